@@ -33,6 +33,22 @@ pub fn long_input(len: usize, seed: u64) -> Vec<u8> {
     v
 }
 
+/// one input with uninterrupted clean runs longer than 2^8, 2^16 and 2^17 bases (the widths a run-length or
+/// position counter could plausibly be narrowed to), separated by single ambiguous bytes
+pub fn clean_run_input() -> Vec<u8> {
+    let mut x: u64 = 0x1234_5678_9abc_def1;
+    let mut v: Vec<u8> = Vec::new();
+    for run in [300usize, 65_600, 131_200] {
+        for _ in 0..run {
+            x = x.wrapping_mul(6364136223846793005).wrapping_add(1442695040888963407);
+            v.push(b"ACGTacgtUu"[((x >> 43) % 10) as usize]);
+        }
+        v.push(b'N');
+    }
+    v.extend_from_slice(b"ACGTAC");
+    v
+}
+
 fn in_small_scope(seq: &[u8], maxlen: usize) -> bool {
     seq.len() <= maxlen && seq.iter().all(|b| S5.contains(b))
 }
@@ -322,8 +338,9 @@ pub fn c01(ctx: &mut Ctx) {
     // long inputs (beyond any block size a routine might switch strategy at), every k
     let mut sh = ctx.shard;
     let mut n_long = 0u64;
-    for (len, seed) in [(4097usize, 1u64), (8193, 2), (20_000, 3), (70_000, 4)] {
-        let s = long_input(len, seed);
+    let mut longs: Vec<Vec<u8>> = [(4097usize, 1u64), (8193, 2), (20_000, 3), (70_000, 4)].iter().map(|&(len, seed)| long_input(len, seed)).collect();
+    longs.push(clean_run_input());
+    for s in longs {
         for k in 1..=31usize {
             if sh.mine() {
                 c01_case(ctx, "long-input", &s, k);
@@ -573,6 +590,39 @@ pub fn c02(ctx: &mut Ctx) {
                     ns += 1;
                     ctx.rep.nontrivial += 1;
                 }
+            }
+        }
+    }
+    // every byte value as the odd byte in every clean context of length <= 2 (a byte that is not a base letter
+    // is ambiguous on both strands)
+    let ctxs = strings(S4, 0, 2);
+    let mut sh = ctx.shard;
+    for b in 4u16..=255 {
+        for u in &ctxs {
+            for v in &ctxs {
+                if !sh.mine() {
+                    continue;
+                }
+                let mut s = u.clone();
+                s.push(b as u8);
+                s.extend_from_slice(v);
+                for k in 1..=2 {
+                    c02_stream(ctx, &s, k);
+                    ns += 1;
+                    ctx.rep.nontrivial += 1;
+                }
+            }
+        }
+    }
+    // long inputs
+    let mut sh = ctx.shard;
+    let mut longs: Vec<Vec<u8>> = vec![long_input(8193, 2), long_input(70_000, 4), clean_run_input()];
+    for s in longs.drain(..) {
+        for k in [1usize, 2, 15, 16, 31] {
+            if sh.mine() {
+                c02_stream(ctx, &s, k);
+                ns += 1;
+                ctx.rep.nontrivial += 1;
             }
         }
     }
@@ -857,8 +907,9 @@ pub fn minimiser_spaces(ctx: &mut Ctx, which: u32) {
     // long inputs
     let mut sh = ctx.shard;
     let mut n_long = 0u64;
-    for (len, seed) in [(4097usize, 1u64), (8193, 2), (20_000, 3), (70_000, 4)] {
-        let s = long_input(len, seed);
+    let mut longs: Vec<Vec<u8>> = [(4097usize, 1u64), (8193, 2), (20_000, 3), (70_000, 4)].iter().map(|&(len, seed)| long_input(len, seed)).collect();
+    longs.push(clean_run_input());
+    for s in longs {
         for (w, m) in [(1usize, 1usize), (2, 1), (3, 2), (5, 3), (8, 5), (12, 7), (16, 16), (31, 7), (31, 28), (40, 10), (91, 31), (300, 15)] {
             if w > wmax {
                 continue;
